@@ -328,9 +328,18 @@ func forward(m *RMsg, root string, withCounts bool) {
 	// (a) the independent reader
 	ref, _, rerr := Unpack(wire)
 	r.Eval(1)
+	// a message that carries the root name written as "." gets one coarse key per path: once the
+	// name is mis-encoded every later field is shifted, and which field differs first is accidental
 	if rerr != nil {
-		r.Violation("Message.Encode~ref:unparseable:"+errClass(rerr)+rootTag, fmt.Sprintf("reference RFC 1035 reader cannot parse the library's bytes: %v", rerr), cs())
+		k := "unparseable:" + errClass(rerr)
+		if rootTag != "" {
+			k = "content"
+		}
+		r.Violation("Message.Encode~ref:"+k+rootTag, fmt.Sprintf("reference RFC 1035 reader cannot parse the library's bytes: %v", rerr), cs())
 	} else if k, d := diffRef(m, ref); k != "" {
+		if rootTag != "" {
+			k = "content"
+		}
 		r.Violation("Message.Encode~ref:"+k+rootTag, "reference reader sees different content in the library's bytes: "+d, cs())
 	}
 	// the library never compresses: bytes must equal the reference writer's uncompressed form
@@ -349,6 +358,9 @@ func forward(m *RMsg, root string, withCounts bool) {
 		r.Violation("roundtrip:decode-error"+rootTag, fmt.Sprintf("DecodeMessage(Encode(m)) fails: %v", err), cs())
 	default:
 		if k, d := diffLib(m, back, nil); k != "" {
+			if rootTag != "" {
+				k = "content"
+			}
 			r.Violation("roundtrip:"+k+rootTag, "DecodeMessage(Encode(m)) differs from m: "+d, cs())
 		} else {
 			// decoded message is self-consistent and re-encodes to the same bytes
@@ -359,6 +371,9 @@ func forward(m *RMsg, root string, withCounts bool) {
 			if p {
 				r.Violation("Message.Validate:panic:"+mon.PanicClass(v), fmt.Sprintf("panic %v at %s", v, mon.TopLibFrame(st)), cs())
 			} else {
+				if hasRoot(m) && (err != nil || !bytes.Equal(again, wire)) {
+					rootTag = ":message-with-root-name"
+				}
 				if verr != nil {
 					r.Violation("Message.Validate:rejects-decoded-valid-message", fmt.Sprintf("Validate()=%v on a correctly decoded valid message", verr), cs())
 				}
@@ -425,8 +440,15 @@ func reverse(m *RMsg, c Comp, tag string) {
 	} else if err != nil {
 		r.Violation("Message.Encode:error-on-decoded-message", fmt.Sprintf("Encode of a decoded valid message fails: %v", err), cs())
 	} else if ref, _, rerr := Unpack(out); rerr != nil {
-		r.Violation("reencode~ref:unparseable:"+errClass(rerr), fmt.Sprintf("reference cannot parse Encode(DecodeMessage(ref bytes)): %v", rerr), cs())
+		k := "unparseable:" + errClass(rerr)
+		if hasRoot(m) {
+			k = "message-with-root-name"
+		}
+		r.Violation("reencode~ref:"+k, fmt.Sprintf("reference cannot parse Encode(DecodeMessage(ref bytes)): %v", rerr), cs())
 	} else if k, d := diffRef(m, ref); k != "" {
+		if hasRoot(m) {
+			k = "message-with-root-name"
+		}
 		r.Violation("reencode~ref:"+k, "Encode(DecodeMessage(ref bytes)) has different content: "+d, cs())
 	}
 	r.Count("reverse_pointers", ptrs)
@@ -723,6 +745,22 @@ func boundaryMessages() []*RMsg {
 	}
 	out = append(out, cm)
 	return out
+}
+
+func hasRoot(m *RMsg) bool {
+	for _, q := range m.Q {
+		if len(q.Name) == 0 {
+			return true
+		}
+	}
+	for _, s := range [][]RRR{m.An, m.Ns, m.Ar} {
+		for _, x := range s {
+			if len(x.Name) == 0 {
+				return true
+			}
+		}
+	}
+	return false
 }
 
 func valid(m *RMsg) bool {
